@@ -1,6 +1,6 @@
 #!/bin/bash
 # usage: tools/confirm_seeded.sh <ID>   - re-confirm an agent's seeded change in its scratch worktree
-ID="$1"; WT=/tmp/wt_$ID; SD=/tmp/seeded_$ID
+ID="$1"; WT=/tmp/wt_$ID; SD=/tmp/seeded${2:-}_$ID
 cd $WT || exit 2
 git diff > /tmp/confirm_$ID.diff
 if ! diff -q /tmp/confirm_$ID.diff $SD/patch.diff >/dev/null; then echo "NOTE: worktree diff != patch.diff - resetting worktree to patch.diff"; git checkout -- .; git apply $SD/patch.diff; fi
